@@ -721,6 +721,8 @@ static inline void print_table_object(flatcc_json_printer_t *ctx,
         flatcc_json_printer_set_error(ctx, flatcc_json_printer_error_deep_recursion);
         return;
     }
+    /* A table without printed fields has no other flush point: vectors of such tables would outrun the reserve. */
+    flatcc_json_printer_flush_partial(ctx);
     print_start('{');
     td.count = 0;
     td.ttl = ttl;
@@ -1110,6 +1112,8 @@ void flatcc_json_printer_union_vector_field(flatcc_json_printer_t *ctx,
                 ud.member = p;
                 pf(ctx, &ud);
             } else {
+                /* NONE elements have no other flush point. */
+                flatcc_json_printer_flush_partial(ctx);
                 print_null();
             }
         }
